@@ -2,8 +2,10 @@
 C04 — the six `part_voice_assign_mode` values in both directions.
 
 * `mapToTrackChannel`: partitura/io/exportmidi.py `map_to_track_channel`.  The helper dicts
-  `tr_helper` / `ch_helper` only ever hold `len(dict)` as values, so a dict is represented by
-  the list of its keys in insertion order and `d.setdefault(k, len(d))` is `setdefaultRank`.
+  `tr_helper` / `ch_helper` only ever hold `len(dict)` (+1) as values, so a dict is represented by
+  the list of its keys in insertion order and `d.setdefault(k, len(d))` is `setdefaultRank`; the one
+  loop of the code over the note keys is written as one loop per helper dict (`rankLoop`,
+  `nestedLoop`), which is the same computation because the dicts do not interact.
 * `assignGroupPartVoice`: partitura/io/importmidi.py `assign_group_part_voice` (with fix C04-6:
   in mode 1 the part helper is keyed by (track, channel), not by the channel alone).
 * `trackToParts`: `make_track_to_part_mapping`.
@@ -25,108 +27,62 @@ def setdefaultRank {α : Type} [DecidableEq α] (d : List α) (x : α) : List α
   | some i => (d, i)
   | none => (d ++ [x], d.length)
 
-/-- nested helper `ch_helper.setdefault(a, {}).setdefault(b, len(...) + 1)`: returns the rank
-    (0-based) of `b` among the keys seen under `a` -/
+/-- `for x in xs: r = helper.setdefault(x, len(helper))` -/
+def rankLoop {α : Type} [DecidableEq α] : List α → List α → List Nat
+  | _, [] => []
+  | d, x :: xs => (setdefaultRank d x).2 :: rankLoop (setdefaultRank d x).1 xs
+
+def ranks {α : Type} [DecidableEq α] (xs : List α) : List Nat := rankLoop [] xs
+
+/-- the inner dict stored under `a` (`{}` when absent) -/
+def innerOf {α β : Type} [DecidableEq α] (d : List (α × List β)) (a : α) : List β := (lookup a d).getD []
+
+/-- `inner = helper.setdefault(a, {}); r = inner.setdefault(b, len(inner))` -/
 def setdefaultNested {α β : Type} [DecidableEq α] [DecidableEq β]
     (d : List (α × List β)) (a : α) (b : β) : List (α × List β) × Nat :=
+  let (inner', r) := setdefaultRank (innerOf d a) b
   match lookup a d with
-  | some inner =>
-    let (inner', r) := setdefaultRank inner b
-    (d.map (fun e => if e.1 = a then (e.1, inner') else e), r)
-  | none => (d ++ [(a, [b])], 0)
+  | some _ => (d.map (fun e => if e.1 = a then (e.1, inner') else e), r)
+  | none => (d ++ [(a, inner')], r)
 
-structure ExpState where
-  tr : List Nat                      -- mode 0, 1, 3: parts or groups; mode 5 uses `tr5`
-  tr5 : List (Nat × Voice)
-  ch : List (Nat × List Voice)       -- mode 0: part -> voices
-  chp : List (Nat × List Nat)        -- mode 1: group -> parts
-  ch2 : List Nat                     -- mode 2: parts
-  deriving Repr
+def nestedLoop {α β : Type} [DecidableEq α] [DecidableEq β] : List (α × List β) → List (α × β) → List Nat
+  | _, [] => []
+  | d, (a, b) :: rest => (setdefaultNested d a b).2 :: nestedLoop (setdefaultNested d a b).1 rest
 
-def ExpState.empty : ExpState := ⟨[], [], [], [], []⟩
+def nranks {α β : Type} [DecidableEq α] [DecidableEq β] (ps : List (α × β)) : List Nat := nestedLoop [] ps
 
-/-- one iteration of the loop of `map_to_track_channel`; `none` = unsupported mode -/
-def expStep (mode : Nat) (s : ExpState) (k : Key) : Option (ExpState × (Nat × Nat)) :=
-  let (pg, p, v) := k
-  match mode with
-  | 0 =>
-    let (tr', t) := setdefaultRank s.tr p
-    let (ch', c) := setdefaultNested s.ch p v
-    some ({ s with tr := tr', ch := ch' }, (t, c + 1))
-  | 1 =>
-    let (tr', t) := setdefaultRank s.tr pg
-    let (ch', c) := setdefaultNested s.chp pg p
-    some ({ s with tr := tr', chp := ch' }, (t, c + 1))
-  | 2 =>
-    let (ch', c) := setdefaultRank s.ch2 p
-    some ({ s with ch2 := ch' }, (0, c + 1))
-  | 3 =>
-    let (tr', t) := setdefaultRank s.tr p
-    some ({ s with tr := tr' }, (t, 1))
-  | 4 => some (s, (0, 1))
-  | 5 =>
-    let (tr', t) := setdefaultRank s.tr5 (p, v)
-    some ({ s with tr5 := tr' }, (t, 1))
-  | _ => none
-
-def expLoop (mode : Nat) : ExpState → List Key → Option (List (Nat × Nat))
-  | _, [] => some []
-  | s, k :: rest =>
-    match expStep mode s k with
-    | none => none
-    | some (s', tc) => (expLoop mode s' rest).map (tc :: ·)
+def kGroup (k : Key) : Nat := k.1
+def kPart (k : Key) : Nat := k.2.1
+def kVoice (k : Key) : Voice := k.2.2
 
 /-- `map_to_track_channel(note_keys, mode)`: (track, channel) per key, aligned with `keys`;
-    an empty key list never reaches the mode test -/
+    `none`: "unsupported part/voice assign mode" (raised inside the loop, so not for an empty list) -/
 def mapToTrackChannel (mode : Nat) (keys : List Key) : Option (List (Nat × Nat)) :=
-  expLoop mode ExpState.empty keys
+  match mode with
+  | 0 => some ((ranks (keys.map kPart)).zip ((nranks (keys.map fun k => (kPart k, kVoice k))).map (· + 1)))
+  | 1 => some ((ranks (keys.map kGroup)).zip ((nranks (keys.map fun k => (kGroup k, kPart k))).map (· + 1)))
+  | 2 => some ((ranks (keys.map kPart)).map fun c => (0, c + 1))
+  | 3 => some ((ranks (keys.map kPart)).map fun t => (t, 1))
+  | 4 => some (keys.map fun _ => (0, 1))
+  | 5 => some ((ranks (keys.map fun k => (kPart k, kVoice k))).map fun t => (t, 1))
+  | _ => if keys.isEmpty then some [] else none
 
 -- ------------------------------------------------------------------ import
 
-structure ImpState where
-  part : List Nat                    -- mode 0, 3: tracks
-  part1 : List (Nat × Nat)           -- mode 1 (fix C04-6) and mode 5: (track, channel)
-  group : List Nat                   -- mode 1: tracks
-  voice : List (Nat × List Nat)      -- mode 0: track -> channels
-  voice2 : List Nat                  -- mode 2: tracks
-  deriving Repr
+/-- (part group, part, voice) of an imported (track, channel); `none` components are `None` -/
+abbrev Cell := Option Nat × Option Nat × Option Nat
 
-def ImpState.empty : ImpState := ⟨[], [], [], [], []⟩
-
-/-- (part group, part, voice) of one (track, channel), `none` components are `None`;
+/-- `assign_group_part_voice(mode, track_ch_combis, ...)[0]`, aligned with `trch`;
     modes outside 0..5 fall through every branch: all `None` -/
-def impStep (mode : Nat) (s : ImpState) (tc : Nat × Nat) : ImpState × (Option Nat × Option Nat × Option Nat) :=
-  let (tr, ch) := tc
+def assignGroupPartVoice (mode : Nat) (trch : List (Nat × Nat)) : List Cell :=
   match mode with
-  | 0 =>
-    let (p', prt) := setdefaultRank s.part tr
-    let (v', vc) := setdefaultNested s.voice tr ch
-    ({ s with part := p', voice := v' }, (none, some prt, some (vc + 1)))
-  | 1 =>
-    let (g', pg) := setdefaultRank s.group tr
-    let (p', prt) := setdefaultRank s.part1 (tr, ch)
-    ({ s with group := g', part1 := p' }, (some pg, some prt, none))
-  | 2 =>
-    let (v', vc) := setdefaultRank s.voice2 tr
-    ({ s with voice2 := v' }, (none, some 0, some (vc + 1)))
-  | 3 =>
-    let (p', prt) := setdefaultRank s.part tr
-    ({ s with part := p' }, (none, some prt, none))
-  | 4 => (s, (none, some 0, none))
-  | 5 =>
-    let (p', prt) := setdefaultRank s.part1 (tr, ch)
-    ({ s with part1 := p' }, (none, some prt, none))
-  | _ => (s, (none, none, none))
-
-def impLoop (mode : Nat) : ImpState → List (Nat × Nat) → List (Option Nat × Option Nat × Option Nat)
-  | _, [] => []
-  | s, tc :: rest =>
-    let (s', r) := impStep mode s tc
-    r :: impLoop mode s' rest
-
-/-- `assign_group_part_voice(mode, track_ch_combis, ...)[0]` -/
-def assignGroupPartVoice (mode : Nat) (trch : List (Nat × Nat)) : List (Option Nat × Option Nat × Option Nat) :=
-  impLoop mode ImpState.empty trch
+  | 0 => List.zipWith (fun p v => (none, some p, some (v + 1))) (ranks (trch.map (·.1))) (nranks trch)
+  | 1 => List.zipWith (fun g p => (some g, some p, none)) (ranks (trch.map (·.1))) (ranks trch)
+  | 2 => (ranks (trch.map (·.1))).map fun v => (none, some 0, some (v + 1))
+  | 3 => (ranks (trch.map (·.1))).map fun p => (none, some p, none)
+  | 4 => trch.map fun _ => (none, some 0, none)
+  | 5 => (ranks trch).map fun p => (none, some p, none)
+  | _ => trch.map fun _ => (none, none, none)
 
 /-- insertion into a strictly ascending list of pairs (lexicographic), duplicates merged:
     `sorted(notes_by_track_ch.keys())` -/
@@ -139,8 +95,7 @@ def insertTC (k : Nat × Nat) : List (Nat × Nat) → List (Nat × Nat)
 def sortedTC (l : List (Nat × Nat)) : List (Nat × Nat) := l.foldr insertTC []
 
 /-- `make_track_to_part_mapping`: the parts a track contributes to (as a list without repeats) -/
-def trackToParts (trch : List (Nat × Nat)) (gpv : List (Option Nat × Option Nat × Option Nat)) (tr : Nat) :
-    List (Option Nat) :=
+def trackToParts (trch : List (Nat × Nat)) (gpv : List Cell) (tr : Nat) : List (Option Nat) :=
   ((trch.zip gpv).filter (fun e => e.1.1 = tr)).foldl
     (fun acc e => if acc.contains e.2.2.1 then acc else acc ++ [e.2.2.1]) []
 
